@@ -38,9 +38,9 @@ RULE = (
 )
 BOUNDS = {
     "quick": "scales: every 13th day of finals.all + 2 days either side of each of the 27 leap seconds + table ends, "
-    "x 9 seconds-of-day x 6 scales; arith on every 97th day (+ leap-adjacent); DateRange ranges up to 5 000 elements",
-    "thorough": "scales: every tabulated day MJD first..last (read from the file) x 9 x 6; arith on every 7th day; "
-    "DateRange ranges up to 200 000 elements",
+    "x 9 seconds-of-day x 6 scales; arith on every 193rd day (+ leap-adjacent); DateRange ranges up to 5 000 elements",
+    "thorough": "scales: every tabulated day MJD first..last (read from the file) x 9 x 6; arith on every 13th day; "
+    "DateRange ranges up to 60 000 elements",
 }
 ASSUMPTIONS = [
     "the instant denoted by a Date is its stored TAI pair (_d, _s) (anchor Date._d/_s); differences of stored "
@@ -197,10 +197,28 @@ def check_scales(case, t):
     utc_day = clocks["UTC"] // DAY
     step = max(m.max_dut1_step(d) for d in days) / TICKS  # one day's change of UT1-UTC [s]
 
-    def sig_ut1(scales, delta, default, k=1):
-        """the day-indexed EOP lookup in the clock of the label: only in a seam, only with UT1, bounded by one
-        day's change of UT1-UTC (per hop)"""
-        if "UT1" in scales and seam and abs(delta) <= k * (step + 2e-6):
+    step_t = max(m.max_dut1_step(d) for d in days)  # the same in ticks
+
+    INEXACT = ("UT1", "TDB")
+    DOUBLE = "Date.datetime/double-rounding/conversion-from-UT1-or-TDB-off-by-up-to-1.5us"
+
+    def classify(hops, delta, default, shown=None, model=False, allow=0.0):
+        """signature of a failed comparison over the library hops [(p, q), ...].
+        Rounding budget of the implementation: `Date.datetime` of an UT1/TDB date is the difference of two terms
+        each rounded to the microsecond (1 us), every conversion rounds its offset once more (0.5 us); a
+        comparison made on the displayed reading of an UT1/TDB result adds the display error (1 us)."""
+        budget = 1e-9 + allow
+        for p, q in hops:
+            budget += (1.0e-6 if p in INEXACT else 0.0) + (0.5e-6 if p in INEXACT or q in INEXACT else 0.0)
+        if shown in INEXACT:
+            budget += 1.0e-6
+        if model and any("TDB" in h for h in hops):
+            budget += 1.0e-7  # constants of the Almanac expression vs the library's (6.6e-8 s) + argument in TAI/TT/TDB (3.3e-8 s)
+        if abs(delta) <= budget:
+            return DOUBLE
+        # the day-indexed EOP lookup in the clock of the label: only in a seam, only with UT1, bounded by one
+        # day's change of UT1-UTC per hop
+        if seam and any("UT1" in h for h in hops) and abs(delta) <= len(hops) * (step + 3e-6):
             return "Date.change_scale/UT1/eop-day-of-label-clock"
         return default
 
@@ -244,6 +262,7 @@ def check_scales(case, t):
     t.ev(n=3)
 
     # ---- single hops ---------------------------------------------------------------------------------
+    FLOAT = 1e-9  # slack for differences of stored float fields (values < 86470 s, ulp 1.5e-11, a few operations)
     B = {X: a}
     for Y in SCALES:
         if Y == X:
@@ -251,17 +270,18 @@ def check_scales(case, t):
         try:
             b = a.change_scale(Y)
         except Exception as e:
-            t.fail(f"Date.change_scale/raises", "conversion is defined for every covered instant", case, "Date", repr(e), f"{X}->{Y}")
+            t.fail("Date.change_scale/raises", "conversion is defined for every covered instant", case, "Date", repr(e), f"{X}->{Y}")
             continue
         t.trans()
         t.ev()
         B[Y] = b
         cl = cls_of(X, Y)
         delta = stored_diff(b, a)
+        ut1 = "UT1" in (X, Y)
         # (1) same instant
         if cl == "exact":
             eq = (a == b) and (b == a) and not (a < b) and not (a > b) and (a <= b) and (a >= b)
-            okd = t.margin("same instant, UTC/TAI/TT/GPS: |stored difference| [s] (tol 1 ns)", abs(delta), 1e-9, case)
+            okd = t.margin("same instant, UTC/TAI/TT/GPS: |stored difference| [s] (tol 1 ns)", abs(delta), FLOAT, case)
             if not eq:
                 t.fail("Date.__eq__/exact-scales/converted-date-not-equal", "a date converted between UTC/TAI/TT/GPS compares equal",
                        case, True, [a == b, a < b, a > b, a <= b, a >= b], f"{X}->{Y} of {dt0.isoformat()}: stored difference {delta!r} s, "
@@ -269,33 +289,37 @@ def check_scales(case, t):
             elif not okd:
                 t.fail("Date.change_scale/exact/instant-moved", "same instant exactly between UTC/TAI/TT/GPS", case, 0.0, delta, f"{X}->{Y}")
         else:
-            if not t.margin("same instant, UT1/TDB involved: |stored difference| [s] (tol 1 us)" + (" [seam]" if seam and "UT1" in (X, Y) else ""),
-                            abs(delta), 1e-6, case):
-                t.fail(sig_ut1((X, Y), delta, f"Date.change_scale/{cl}/instant-moved"),
+            name = "same instant, UT1/TDB involved: |stored difference| [s] (tol 1 us)" + (", clocks on two days" if seam and ut1 else "")
+            t.margin(name, abs(delta), 1e-6, case)
+            if not (abs(delta) <= 1e-6 + FLOAT):
+                t.fail(classify([(X, Y)], delta, f"Date.change_scale/{cl}/instant-moved"),
                        "a converted date denotes the same instant within 1 us when UT1 or TDB is involved", case, "<= 1e-6 s", delta,
-                       f"{X}->{Y} of {dt0.isoformat()} {X}: result {b.datetime.isoformat()} {Y} stores an instant {delta:+.7f} s away "
-                       f"(UT1-UTC source day {a.eop.ut1_utc!r}, result day {b.eop.ut1_utc!r})")
+                       f"{X}->{Y} of {dt0.isoformat()} {X}: result {b.datetime.isoformat()} {Y} stores an instant {delta * 1e6:+.3f} us away "
+                       f"(the source shows itself as {a.datetime.isoformat()}; UT1-UTC of the source's EOP day {a.eop.ut1_utc!r}, of the result's {b.eop.ut1_utc!r})")
         # (2) the reading itself
         got = clock_ticks(b)
         if Y == "UT1":
             exp = [clocks["UTC"] + m.dut1(d) for d in days if m.covered(d)]
         else:
             exp = [clocks[Y]]
-        err = min(abs(got - e) for e in exp) / TICKS
+        err = min(abs(got - e) for e in exp)  # ticks
         if cl == "exact":
             if err != 0:
                 t.fail("Date.change_scale/exact/reading-vs-model", "TT-TAI=32.184 s, TAI-GPS=19 s, TAI-UTC as tabulated, exactly", case,
-                       exp[0], got, f"{X}->{Y}: off by {err} s")
-        elif not t.margin("converted reading vs model, UT1/TDB involved [s] (tol 1 us)", err, 1e-6, case):
-            t.fail(sig_ut1((X, Y), err, f"Date.change_scale/{cl}/reading-vs-model"),
-                   "UT1-UTC as tabulated for that day / TDB-TT its periodic term", case, exp, got, f"{X}->{Y}: off by {err} s")
-        # (2b) the (d, s) view agrees with the datetime view
-        view = (b.d * 86400.0 + b.s) - got / TICKS
-        if not (abs(view) <= 1e-6):
+                       exp[0], got, f"{X}->{Y}: off by {err / TICKS} s")
+        else:
+            t.margin("converted reading vs model, UT1/TDB involved [s] (tol 1 us)", err / TICKS, 1e-6, case)
+            if err > 10:
+                t.fail(classify([(X, Y)], err / TICKS, f"Date.change_scale/{cl}/reading-vs-model", shown=Y, model=True),
+                       "UT1-UTC as tabulated for that day / TDB-TT its periodic term", case, exp, got,
+                       f"{X}->{Y} of {dt0.isoformat()}: reading {b.datetime.isoformat()} is {err / US} us from the model's")
+        # (2b) the (d, s) view agrees with the datetime view to the resolution of the latter
+        view = (b.d - got // DAY) * 86400.0 + (b.s - (got % DAY) / TICKS)
+        if not (abs(view) <= 1e-6 + FLOAT):
             t.fail("Date.d-s/disagrees-with-datetime", "the (d, s) view and the datetime view show the same reading", case, 0.0, view, f"{X}->{Y}")
 
     # ---- two hops: round trips and path independence ---------------------------------------------------
-    clock_a = clock_ticks(a)
+    clock_a = clock0  # the reading the date was built from
     for Y, b in B.items():
         if Y == X:
             continue
@@ -305,48 +329,51 @@ def check_scales(case, t):
             try:
                 c2 = b.change_scale(C)
             except Exception as e:
-                t.fail(f"Date.change_scale/raises", "conversion is defined for every covered instant", case, "Date", repr(e), f"{X}->{Y}->{C}")
+                t.fail("Date.change_scale/raises", "conversion is defined for every covered instant", case, "Date", repr(e), f"{X}->{Y}->{C}")
                 continue
             t.trans()
             t.ev()
             cl = cls_of(X, Y, C)
             if C == X:
-                back = abs(clock_ticks(c2) - clock_a) / TICKS
+                back = abs(clock_ticks(c2) - clock_a)  # ticks
                 if "UT1" in (X, Y):
-                    ok = back <= 2e-6 + step
+                    ok = back <= 20 + step_t
                     if seam:
-                        t.margin("round trip reading with UT1, clocks on two days [s] (tol 2 us + one day's change of UT1-UTC)", back, 2e-6 + step, case)
+                        t.margin("round trip reading with UT1, clocks on two days [s] (tol 2 us + one day's change of UT1-UTC)", back, 20 + step_t, case)
                     else:
-                        t.margin("round trip reading with UT1, clocks on one day [s] (shown against 2 us)", back, 2e-6, case)
+                        t.margin("round trip reading with UT1, clocks on one day [s] (shown against 2 us)", back, 20, case)
                 else:
-                    ok = t.margin("round trip reading [s] (tol 2 us)", back, 2e-6, case)
+                    ok = t.margin("round trip reading [s] (tol 2 us)", back, 20, case)
                 if not ok:
-                    t.fail(f"Date.change_scale/{cl}/round-trip", "converts back to the same clock reading within 2 us (UT1: one day's change)",
-                           case, clock_a, clock_ticks(c2), f"{X}->{Y}->{X}: {back} s")
+                    t.fail(classify([(X, Y), (Y, X)], back / TICKS, f"Date.change_scale/{cl}/round-trip", shown=X,
+                                    allow=step if "UT1" in (X, Y) else 0.0), "converts back to the same clock reading within 2 us (UT1: one day's change)",
+                           case, clock_a, clock_ticks(c2), f"{X}->{Y}->{X} of {dt0.isoformat()}: comes back as {c2.datetime.isoformat()}")
                 continue
             if C not in B:
                 continue
             direct = B[C]
             dd = stored_diff(c2, direct)
             if cl == "exact":
-                if not (c2 == direct) or not (abs(dd) <= 1e-9):
+                if not (c2 == direct) or not (abs(dd) <= FLOAT):
                     t.fail("Date.change_scale/exact/path-dependent", "A->B->C equals A->C between UTC/TAI/TT/GPS", case, 0.0, dd, f"{X}->{Y}->{C}")
             else:
-                hops = sum(1 for p, q in ((X, Y), (Y, C), (X, C)) if cls_of(p, q) != "exact")
-                if not t.margin("path independence with UT1/TDB [s] (tol 1 us per inexact hop)" + (" [seam]" if seam and "UT1" in (X, Y, C) else ""),
-                                abs(dd), hops * 1e-6, case):
-                    t.fail(sig_ut1((X, Y, C), dd, f"Date.change_scale/{cl}/path-dependent", k=3), "A->B->C denotes the same instant as A->C",
-                           case, f"<= {hops}e-6 s", dd, f"{X}->{Y}->{C} vs {X}->{C}")
+                hops = [(X, Y), (Y, C), (X, C)]
+                n = sum(1 for p, q in hops if cls_of(p, q) != "exact")
+                name = "path independence with UT1/TDB [s] (tol 1 us per inexact hop)" + (", clocks on two days" if seam and "UT1" in (X, Y, C) else "")
+                t.margin(name, abs(dd), n * 1e-6, case)
+                if not (abs(dd) <= n * 1e-6 + FLOAT):
+                    t.fail(classify(hops, dd, f"Date.change_scale/{cl}/path-dependent"), "A->B->C denotes the same instant as A->C",
+                           case, f"<= {n}e-6 s", dd, f"{X}->{Y}->{C} vs {X}->{C} of {dt0.isoformat()} {X}")
 
-    # ---- equality => same hash; pre-order independent of the label ------------------------------------
-    names = list(B)
+    # ---- equality => same hash (pairs the property requires to be equal); pre-order independent of the label ----
+    names = [s_ for s_ in B if s_ in EXACT] if X in EXACT else []
     for i, p in enumerate(names):
         for q in names[i + 1:]:
             t.ev()
             if B[p] == B[q] and hash(B[p]) != hash(B[q]):
                 t.fail("Date.__hash__/equal-dates-different-hash", "a == b implies hash(a) == hash(b)", case, "equal hashes",
                        [[B[p]._d, repr(B[p]._s)], [B[q]._d, repr(B[q]._s)]],
-                       f"{dt0.isoformat()} {X}: as {p} and as {q} compare equal, stored seconds {B[p]._s!r} vs {B[q]._s!r}")
+                       f"{dt0.isoformat()} {X}: seen as {p} and as {q} the two dates compare equal, stored seconds {B[p]._s!r} vs {B[q]._s!r}")
                 t.outcome("hash differs on equal dates")
     try:
         later = {1: Date(dt_of(clock0 + 1 * US), scale=X), 5: Date(dt_of(clock0 + 5 * US), scale=X)}
@@ -363,11 +390,11 @@ def check_scales(case, t):
             exp = [True, True, False, False, False, True, True, False, False, False]
             if obs != exp:
                 d = stored_diff(l, b)
-                t.fail(sig_ut1((X, Y), d - gap * 1e-6, f"Date.order/{cls_of(X, Y)}/label-dependent"),
+                t.fail(classify([(X, Y)], d - gap * 1e-6, f"Date.order/{cls_of(X, Y)}/label-dependent"),
                        "ordering is consistent with the instants and independent of the label", case, exp, obs,
                        f"{dt0.isoformat()} {X} seen as {Y} vs the same clock +{gap} us in {X}")
     if len(t.samples) < 3:
-        t.sample(dict(case, readings={s: B[s].datetime.isoformat() for s in B}))
+        t.sample(dict(case, readings={s_: B[s_].datetime.isoformat() for s_ in B}))
 
 
 # ---------------------------------------------------------------------------
@@ -652,10 +679,10 @@ def units(tier, seed):
     for ch in _chunks(days, 64 if tier == "quick" else 256):
         u.append((CFG_MAIN, dict(part="scales", days=ch)))
     # arithmetic
-    for ch in _chunks(day_set(tier, 97, 7), 48 if tier == "quick" else 160):
+    for ch in _chunks(day_set(tier, 193, 13), 48 if tier == "quick" else 160):
         u.append((CFG_MAIN, dict(part="arith", days=ch)))
     # DateRange
-    cap = 5_000 if tier == "quick" else 200_000
+    cap = 5_000 if tier == "quick" else 60_000
     for span in R_SPAN_US:
         for start in R_START:
             for stopk in R_STOP:
@@ -691,7 +718,7 @@ def run_unit(p, t):
                                      inclusive=incl, label=L, stop=p["stop"], cap=p["cap"]), t)
     elif p["part"] == "policy":
         for D, _ in POLICY_DATES:
-            for sod in (0, 43_200_123_456):
+            for sod in (3_600_000_000, 43_200_123_456):  # away from 0h: the day seams are the business of part 1
                 for X in SCALES:
                     for Y in SCALES:
                         check_policy(dict(kind="policy", config=cfg, src=X, dst=Y, day=D, sod_us=sod), t)
